@@ -457,6 +457,14 @@ class T(_np.ndarray):
     """numpy object array with the torch.Tensor / ndarray surface odak uses"""
     __array_priority__ = 100
 
+    def any(s, *a, **k):
+        """added for C11/C12: `(x > y).any()` on symbolic conditions is their disjunction (a B node)"""
+        vals = list(_np.asarray(s).reshape(-1))
+        if a or k or not vals or not all(isinstance(v, (B, bool, _np.bool_)) for v in vals):
+            raise TraceError('any() of a non-boolean or reduced-axis symbolic tensor')
+        r = B.lift(vals[0])
+        for v in vals[1:]: r = r | B.lift(v)
+        return r
     def unsqueeze(s, d): return wrap(_np.expand_dims(_np.asarray(s), d))
     def squeeze(s, d=None):
         a = _np.asarray(s)
@@ -524,7 +532,7 @@ class T(_np.ndarray):
     def __or__(s, o): return s._cmp(o, lambda x, y: B.lift(x) | B.lift(y))
     def __invert__(s): return _ew1(lambda e: ~B.lift(e), s)
     def __pow__(s, o): return _ew1(lambda e: _lift(e) ** o, s)
-    def __matmul__(s, o): return wrap(_np.dot(_np.asarray(s), _np.asarray(o)))
+    def __matmul__(s, o): return wrap(_matmul(s, o))      # torch `@`: batch broadcasting for > 2-D operands (np.dot below that)
     __hash__ = None
     def __getitem__(s, idx):
         if isinstance(idx, _np.ndarray) and idx.dtype == object:
@@ -965,6 +973,7 @@ def make_torch():
     d['mm'] = d['matmul'] = _dot
     d['bmm'] = _bmm
     d['dot'] = _dot
+    d['einsum'] = lambda spec, *ops, **k: _ret(_np.einsum(spec, *[_np.asarray(o, dtype=object) for o in ops]))   # added for C11/C12
     d['mul'] = lambda a, b: a * b
     d['add'] = lambda a, b: a + b
     d['subtract'] = d['sub'] = lambda a, b: a - b
@@ -1052,6 +1061,7 @@ def make_numpy():
     d['stack'] = _stack
     d['concatenate'] = _cat
     d['dot'] = _dot
+    d['einsum'] = lambda spec, *ops, **k: _ret(_np.einsum(spec, *[_np.asarray(o, dtype=object) for o in ops]))   # added for C11/C12
     d['matmul'] = _dot
     d['cross'] = lambda a, b, axis=-1, **k: _cross(wrap(a), wrap(b), dim=axis)
     d['subtract'] = lambda a, b: wrap(a) - wrap(b)
@@ -1174,3 +1184,23 @@ def load(relpath, names_, ns, cls=None, expose=None):
     if missing:
         raise TraceError('%s: function(s) %s not found' % (relpath, sorted(missing)))
     return ns
+
+
+def load_all(relpath, ns, skip=()):
+    """define EVERY top-level function of /repo/<relpath> inside ns (definitions only; nothing is run), so that private
+    helpers a refactoring introduces resolve when the traced functions call them.  A definition whose default arguments
+    cannot be evaluated under the shim is skipped (it raises if it is ever needed: fail-closed)."""
+    path = os.path.join(REPO, relpath)
+    tree = ast.parse(open(path).read())
+    done = []
+    for n in tree.body:
+        if isinstance(n, ast.FunctionDef) and n.name not in skip:
+            n.decorator_list = []
+            mod = ast.Module([n], [])
+            ast.fix_missing_locations(mod)
+            try:
+                exec(compile(mod, path, 'exec'), ns)
+                done.append(n.name)
+            except Exception:
+                pass
+    return done
